@@ -39,7 +39,7 @@ def runMatMulOp (op : String) (attrs : Json) (ins : List (Option DT)) : Answer :
     let sp := Spec.matmul intArith A.t B.t
     if A.dt != B.dt || !isFloat A.dt then
       { model := if A.t.rank == 0 || B.t.rank == 0 then { status := "unmodelled" } else .ofErr .gorgonia,
-        spec := { domain := "mayRefuse" }, tags := tags ++ ["non-float"] }
+        spec := if A.dt == B.dt then specOpt A.dt sp "mayRefuse" "mayRefuse" else { domain := "mayRefuse" }, tags := tags ++ ["non-float"] }
     else
       let model := (okT A.dt (matmulOp intArith A.t B.t)).checkExact
       let r := A.t.rank
@@ -67,8 +67,9 @@ def runMatMulOp (op : String) (attrs : Json) (ins : List (Option DT)) : Answer :
         let dtsOk := A.dt == B.dt && (match C with | some c => c.dt == A.dt | none => true)
         let tags := [if tA then "tA" else "nA", if tB then "tB" else "nB", match C with | some c => s!"c{c.t.rank}" | none => "noC"]
         if !dtsOk || A.dt != .f32 then
+          -- other element types: refused today (alpha is a float32 scalar); if ever computed, it must be the ONNX value
           { model := if A.t.rank == 2 && B.t.rank == 2 then .ofErr .gorgonia else { status := "unmodelled" },
-            spec := { domain := "mayRefuse" }, tags := tags ++ ["non-f32"] }
+            spec := if dtsOk then specOpt A.dt sp "mayRefuse" "mayRefuse" else { domain := "mayRefuse" }, tags := tags ++ ["non-f32"] }
         else
           { model := (okT A.dt (gemmOp intArith alpha beta tA tB A.t B.t (C.map (·.t)))).checkExact, tags,
             spec := specOpt A.dt sp "must" }
